@@ -512,6 +512,33 @@ func RangeMap[M ~map[K]V, K comparable, V any](site int32, m M) *MapIter[K] {
 	return it
 }
 
+// RangeMapKV, RangeMapK and RangeMapV are RangeMap for loops that declare their
+// variables (for k, v := range m): they also return zero values, so that the
+// rewritten loop can declare k and v once per loop in its init statement.
+func RangeMapKV[M ~map[K]V, K comparable, V any](site int32, m M) (*MapIter[K], K, V) {
+	var k K
+	var v V
+	return RangeMap(site, m), k, v
+}
+
+func RangeMapK[M ~map[K]V, K comparable, V any](site int32, m M) (*MapIter[K], K) {
+	var k K
+	return RangeMap(site, m), k
+}
+
+func RangeMapV[M ~map[K]V, K comparable, V any](site int32, m M) (*MapIter[K], V) {
+	var v V
+	return RangeMap(site, m), v
+}
+
+// ChanAndZero returns the channel and the zero value of its element type (for the
+// per-loop declaration of the variable of a rewritten range-over-channel loop;
+// the ranged expression is evaluated once).
+func ChanAndZero[C ~chan T | ~<-chan T, T any](c C) (C, T) {
+	var z T
+	return c, z
+}
+
 // Next advances to the next key; it reports false when the iteration is over.
 func (it *MapIter[K]) Next() bool {
 	for !it.extra {
